@@ -149,13 +149,13 @@ fn main() {
                 };
                 scen::graph_scenario(i, &mut srng, &o, family)
             }
-            "doc" | "doctext" | "docinv" | "histdoc" | "reload" | "rollback" | "iso" | "diff" | "patch" | "ids" | "idshi" | "migrate" | "badargs" | "isorich" | "serde" | "bulk" | "spans" | "anon" | "reloadlong" | "histlong" | "difflong" => {
+            "doc" | "doctext" | "docinv" | "histdoc" | "reload" | "rollback" | "iso" | "diff" | "patch" | "ids" | "idshi" | "migrate" | "badargs" | "isorich" | "serde" | "bulk" | "spans" | "anon" | "reloadlong" | "histlong" | "difflong" | "autofront" => {
                 if family == "isorich" {
                     amverif::proj::set_rich(true);
                 }
-                let text = family == "doctext";
+                let text = family == "doctext" || (family == "autofront" && i % 2 == 1);
                 let mut prof = Profile::all();
-                if family == "docinv" {
+                if family == "docinv" || family == "autofront" {
                     prof.invalid_pct = 30;
                 }
                 if family == "badargs" {
